@@ -733,10 +733,13 @@ class Run:
             # (only while the plan still says so: a minimised plan whose
             # steps no longer share their recipes builds fresh objects)
             regs = self.prev_regs
-        elif src == 'from_readback':
-            got = self.read_prev()
-            if got is not None:
-                regs = got
+        rb_target = None
+        if src == 'from_readback':
+            # the very object Regions.read returned is written (a reader
+            # must not leave a memory of the file on what it returns)
+            rb_target = self.read_prev(as_object=True)
+            if rb_target is not None:
+                regs = list(rb_target)
                 from_recipes = False
         self.last_regs = regs
         self.last_from_recipes = from_recipes
@@ -756,6 +759,8 @@ class Run:
                 and getattr(self, 'prev_target', None) is not None \
                 and type(self.prev_target).__name__ == 'Regions':
             target = self.prev_target        # the same Regions object again
+        elif rb_target is not None:
+            target = rb_target
         else:
             from regions import Regions
             target = Regions(regs)
@@ -776,7 +781,7 @@ class Run:
         trace.extend(seam.trace)
         return outcome, wrec
 
-    def read_prev(self):
+    def read_prev(self, as_object=False):
         """Fresh objects read from the file the previous successful step
         wrote (None if there is none)."""
         from regions import Regions
@@ -786,7 +791,8 @@ class Run:
         try:
             wrec = []
             with warnings_mode('default', wrec):
-                return list(Regions.read(prev[0], format=prev[1]))
+                got = Regions.read(prev[0], format=prev[1])
+                return got if as_object else list(got)
         except Exception:
             return None
 
